@@ -70,6 +70,8 @@ pub struct WebSocketFramed<T, C, E, D> {
     encode_item: PhantomData<E>,
     decode_item: PhantomData<D>,
     buffer: Option<BytesMut>,
+    /// the buffer holds bytes the decoder has not looked at since it last produced an item
+    readable: bool,
     close_queued: bool,
 }
 
@@ -81,7 +83,7 @@ where
     C: Encoder<E, Error = anyhow::Error> + Decoder<Item = D, Error = anyhow::Error> + Unpin,
 {
     pub fn new(stream: WebSocketStream<T>, codec: C) -> Self {
-        Self { stream, codec, encode_item: PhantomData, decode_item: PhantomData, buffer: None, close_queued: false }
+        Self { stream, codec, encode_item: PhantomData, decode_item: PhantomData, buffer: None, readable: false, close_queued: false }
     }
 }
 
@@ -95,10 +97,29 @@ where
 
     fn poll_next(mut self: Pin<&mut Self>, cx: &mut Context<'_>) -> Poll<Option<Self::Item>> {
         loop {
+            // one message may carry several frames: whatever is left in the buffer is decoded before waiting for the next message
+            if self.readable {
+                if let Some(mut payload) = self.buffer.take() {
+                    let decoded = self.codec.decode(&mut payload);
+                    if !payload.is_empty() {
+                        self.buffer = Some(payload);
+                    }
+                    match decoded {
+                        Ok(Some(item)) => return Poll::Ready(Some(Ok(item))),
+                        Ok(None) => self.readable = false,
+                        Err(e) => {
+                            self.readable = false;
+                            return Poll::Ready(Some(Err(e)));
+                        }
+                    }
+                } else {
+                    self.readable = false;
+                }
+            }
             match ready!(self.stream.poll_next_unpin(cx)) {
                 Some(Ok(msg)) => {
                     if msg.is_binary() || msg.is_text() {
-                        let mut payload = match self.buffer.take() {
+                        let payload = match self.buffer.take() {
                             Some(buffer) => {
                                 let msg_payload = msg.as_payload();
                                 let mut payload = BytesMut::with_capacity(buffer.len() + msg_payload.len());
@@ -108,15 +129,8 @@ where
                             }
                             None => BytesMut::from(msg.into_payload()),
                         };
-                        let decoded = self.codec.decode(&mut payload);
-                        if !payload.is_empty() {
-                            self.buffer = Some(payload);
-                        }
-                        match decoded {
-                            Ok(Some(item)) => return Poll::Ready(Some(Ok(item))),
-                            Ok(None) => continue,
-                            Err(e) => return Poll::Ready(Some(Err(e))),
-                        }
+                        self.buffer = Some(payload);
+                        self.readable = true;
                     }
                     continue;
                 }
